@@ -71,7 +71,51 @@ def bias_end_ops(rng, case):
     return a + off
 
 
+def gen_real(rng, index, tier):
+    """a debug session on a real program with its REAL label table (breakpoints by real label names / substrings)"""
+    from sim import realprog
+    for _ in range(4):
+        case, labels = realprog.real_case(rng)
+        if case is None:
+            continue
+        m, obs = enginesim.pre_run(rng, case, cap=700)
+        if m is None:
+            continue
+        break
+    else:
+        return None
+    trace = list(m.ip_trace)
+    case['labels'] = labels
+    case['real'] = True
+    by_addr = {}
+    for lab, a in labels.items():
+        by_addr.setdefault(a, []).append(lab)
+    executed_labels = [lab for ip in trace for lab in by_addr.get(ip, [])]
+    bp_addrs = set(rng.sample(trace, min(len(trace), rng.choice([0, 1, 2]))))
+    bp_labels = set(rng.sample(executed_labels, min(len(executed_labels), rng.choice([0, 1, 1, 2])))) if executed_labels else set()
+    if rng.random() < 0.2 and labels:
+        bp_labels.add(rng.choice(sorted(labels)))
+    subs = []
+    if executed_labels and rng.random() < 0.4:
+        lab = rng.choice(executed_labels)
+        i = rng.randrange(0, max(1, len(lab) - 3))
+        subs.append(lab[i:i + rng.randint(3, 12)])
+    if rng.random() < 0.15:
+        subs.append(rng.choice(['stl.', 'output', 'IO', 'hex', 'loop', '---']))
+    bp_contains = set(subs)
+    if not (bp_addrs or bp_labels or bp_contains):
+        bp_addrs.add(rng.choice(trace))
+    case['bp'] = {'addresses': sorted(bp_addrs), 'labels': sorted(bp_labels), 'contains': sorted(bp_contains)}
+    case['user_seed'] = rng.getrandbits(32)
+    case['last_ops'] = rng.choice([None, 3, 10])
+    case['use_debug_file'] = True
+    case['model_cap'] = 800
+    return case
+
+
 def gen(rng, index, tier):
+    if index % 10 == 4:
+        return gen_real(rng, index, tier)
     for _ in range(8):
         case, meta = G.gen_case(rng, 'c15')
         case['tags'] = meta['tags']
@@ -276,6 +320,8 @@ class SimUser:
         r = self.rng
         w = self.w
         labels = sorted(self.case['labels'])
+        if len(labels) > 40:
+            labels = r.sample(labels, 40)
         cnt, ip, mem = self.cur
         base = r.choice([ip, ip + w, r.choice(sorted(self.case['labels'].values()) or [0]),
                          (r.choice(self.case['segments'])['start']) * w, 0, 2 * w, 3 * w])
@@ -389,7 +435,7 @@ class SimUser:
             r = fjmodel.step_outcome(m, self.mdev, IOReadOnEOF)
             if r is not None:
                 self.model_done = r
-            if m.count > 400:
+            if m.count > self.case.get('model_cap', 400):
                 self.model_done = ('cap', None)
 
 
@@ -423,13 +469,13 @@ def run(case):
     Bset = expected_breakpoints(case)
     violations = []
     # ---- undebugged reference: model (and the three engines must agree with it - else it is C01's matter)
-    exp0, m0 = C.run_model(case, last_ops=case['last_ops'], probe_mode='off', max_ops=400)
+    exp0, m0 = C.run_model(case, last_ops=case['last_ops'], probe_mode='off', max_ops=case.get('model_cap', 400))
     if exp0['outcome'][0] == 'cap':
         return _res(case, [], {}, set(), 0, False, 'cap')
     base = dict(case, configs=[{'engine': 'native', 'probe': 'off', 'last_ops': case['last_ops']},
                                {'engine': 'fast', 'probe': 'off', 'last_ops': case['last_ops']},
                                {'engine': 'featured', 'probe': 'off', 'last_ops': case['last_ops']}])
-    bv, info = enginesim.evaluate(base, ('outcome', 'ops', 'log'), path=path)
+    bv, info = enginesim.evaluate(base, ('outcome', 'ops', 'log'), path=path, model_cap=case.get('model_cap', 400))
     if bv:
         return _res(case, [], {'baseline_disagrees_skipped': 1}, set(), 0, False, 'baseline')
     steps = info['steps']
